@@ -153,7 +153,7 @@ func GenGenesis(t *rapid.T, p *Profile) lab.GenesisCfg {
 			a.VestEnd = pick(t, []int64{50, 1000, 100000000}, "vestEnd")
 		}
 		if p.ManyDenoms {
-			for _, d := range []string{"aaa", "mmm", "nun", "nunda", "oz", "stakf", "uatom", "zz", "ibc/27394FB092D2ECCD56123C74F36E4C1F926001CEADA9CA97EA622B25F41E5EB2"} {
+			for _, d := range []string{"aaa", "mmm", "nun", "nunda", "ozz", "stakf", "uatom", "zzz", "ibc/27394FB092D2ECCD56123C74F36E4C1F926001CEADA9CA97EA622B25F41E5EB2"} {
 				if oneIn(t, 6, "xd"+d) {
 					a.Bal[d] = pick(t, []string{"1", "1000", "123456789012345678901234567890"}, "xdAmt")
 				}
